@@ -4,9 +4,6 @@ package resmgr
 
 import (
 	"fmt"
-	"os"
-	"path/filepath"
-	"regexp"
 	"runtime"
 	"sort"
 	"strings"
@@ -511,107 +508,14 @@ func (e *executor) runLifecycleLane(li int, ln *hcLane, pod *rtPod, ctrs []*rtCt
 
 // ---------------------------------------------------------------- race reports
 
-var raceLogOffset = map[string]int64{}
-
-func raceLogPath() string {
-	for _, f := range strings.Fields(os.Getenv("GORACE")) {
-		if v, ok := strings.CutPrefix(f, "log_path="); ok {
-			return v
-		}
-	}
-	return ""
-}
-
-// newRaceReports returns the race detector reports written since the last call.
-func newRaceReports() []string {
-	prefix := raceLogPath()
-	if prefix == "" {
-		return nil
-	}
-	files, _ := filepath.Glob(prefix + ".*")
-	out := []string{}
-	for _, f := range files {
-		data, err := os.ReadFile(f)
-		if err != nil {
-			continue
-		}
-		off := raceLogOffset[f]
-		if int64(len(data)) <= off {
-			continue
-		}
-		raceLogOffset[f] = int64(len(data))
-		for _, blk := range strings.Split(string(data[off:]), "==================") {
-			if strings.Contains(blk, "DATA RACE") {
-				out = append(out, blk)
-			}
-		}
-	}
-	return out
-}
-
-var (
-	raceAccessRe  = regexp.MustCompile(`(?m)^(Write|Read|Previous write|Previous read|Atomic write|Atomic read|Previous atomic write|Previous atomic read) at 0x[0-9a-f]+ by (main goroutine|goroutine \d+):$`)
-	raceHandlerRe = regexp.MustCompile(`\(\*nriPlugin\)\.(Synchronize|RunPodSandbox|StopPodSandbox|RemovePodSandbox|CreateContainer|StartContainer|UpdateContainer|StopContainer|RemoveContainer)\(|\(\*resmgr\)\.(updateConfig|reconfigure)\(|(goFetchPodResources)\.func`)
-)
-
-// raceSignature names the two request handlers (or background activities)
-// whose unsynchronised accesses the detector reported.
-func raceSignature(report string) (sig string, harnessOnly bool) {
-	idx := raceAccessRe.FindAllStringIndex(report, -1)
-	parties, sites := []string{}, []string{}
-	harnessOnly = len(idx) > 0
-	for i, at := range idx {
-		end := len(report)
-		if i+1 < len(idx) {
-			end = idx[i+1][0]
-		}
-		stack := report[at[1]:end]
-		if j := strings.Index(stack, "\nGoroutine "); j >= 0 {
-			stack = stack[:j]
-		}
-		party := ""
-		if mm := raceHandlerRe.FindStringSubmatch(stack); mm != nil {
-			for _, g := range mm[1:] {
-				if g != "" {
-					party = g
-				}
-			}
-		}
-		site := ""
-		lines := strings.Split(strings.TrimSpace(stack), "\n")
-		for k := 0; k+1 < len(lines); k += 2 {
-			fn, file := strings.TrimSpace(lines[k]), strings.TrimSpace(lines[k+1])
-			if strings.Contains(fn, "containers/nri-plugins") && !strings.Contains(file, "zz_verif_") {
-				site = fn[strings.LastIndex(fn, "/")+1:]
-				if j := strings.Index(site, "("); j > 0 && !strings.HasPrefix(site[j:], "(*") {
-					site = site[:j]
-				}
-				site = strings.TrimSuffix(site, "()")
-				harnessOnly = false
-				break
-			}
-		}
-		if party == "" {
-			party = site
-		}
-		if party == "" {
-			party = "?"
-		}
-		parties = append(parties, party)
-		sites = append(sites, site)
-	}
-	sort.Strings(parties)
-	return "data-race:" + strings.Join(parties, "~"), harnessOnly
-}
-
 func checkPhase(e *executor, r *stepResult) *vfkit.Violation {
 	if r.Op.Kind == "phase" {
 		if pr, ok := e.scratch["phase"].(*phaseResult); ok && pr.violation != nil {
 			return pr.violation
 		}
 	}
-	for _, rep := range newRaceReports() {
-		sig, harness := raceSignature(rep)
+	for _, rep := range vfkit.NewRaceReports() {
+		sig, harness := vfkit.RaceSignature(rep)
 		if harness {
 			panic("harness bug: data race inside the harness:\n" + rep)
 		}
